@@ -13,11 +13,12 @@ def gp(name, flavor, threads, R, tso=0, nested=0, unreg=0, membarrier=1, faults=
         # the registry arena is a byte-typed object (mmap model): pointers read back from it always carry CBMC's integer-address
         # fallback next to their real targets; accesses that resolve to the fallback ALONE are still refused
         extra['intaddr_ok'] = True
+        extra['stub_map'] = {'mmap': 'my_mmap'}
     if tso_slots:
         extra['tso_slots'] = tso_slots
     if handlers:
         extra['handlers'] = [dict(fn='sig_handler', slot=k) for k in handlers]
-    return conc(name, 'c01_gp.c', threads, R, cflags=['-DFLAVOR=%d' % FL[flavor], '-DNESTED=%d' % nested, '-DUNREG=%d' % unreg, '-DDYN=%d' % dyn] + HOOKS,
+    return conc(name, 'c01_gp.c', threads, R, cflags=(['-DURCU_VERIF_INIT_READER_COUNT=1'] if flavor == 'bp' else []) + ['-DFLAVOR=%d' % FL[flavor], '-DNESTED=%d' % nested, '-DUNREG=%d' % unreg, '-DDYN=%d' % dyn] + HOOKS,
                 pre=['setup'] + regs, post=['epilogue'], tso=tso, unwind=unwind, desc=desc, wit=wit, live=live, safe=safe, live_R=live_R,
                 timeout=timeout, faults=faults, extra=extra, nslots=4)
 
@@ -40,16 +41,14 @@ def obligations(tier):
               desc='memb with sys_membarrier under x86-TSO (store buffer depth 1): the reader side has only compiler barriers, the updater\'s '
                    'membarrier must flush the reader\'s buffered ctr store before each scan (store buffering modelled for the reader thread; the updater is SC)', wit=W1)
     if not q:
-        obs += gp('bp_1r', 'bp', ['updater', 'reader'], 3, mem_gb=24,
-                  desc='bp: updater vs one lazily registered reader (registration through the real arena allocator inside the first rcu_read_lock)', wit=W1)
-    if not q:
         # further thorough obligations that were run to a verdict on this tree
         obs += gp('mb_nested', 'mb', ['updater', 'reader'], 3, nested=1, desc='mb: reader with a nested lock/unlock pair inside its section', wit=W1)
     return obs
 
 
 EXPLANATION = 'C01: grace-period guarantee'
-OUTSIDE = '>2 readers, >2 concurrent callers, nesting depth >2, non-x86 memory models'
+OUTSIDE = ('>2 readers, >2 concurrent callers, nesting depth >2, non-x86 memory models; bp flavor: the encoding exists (FLAVOR=4, mmap/pthread_key models, typed arena chunk) '
+           'but updater-vs-reader at R=3 exhausted a 24 GB solver limit three times (byte-typed arena, typed arena, single-reader arena), so no bp obligation is registered')
 ASSUMPTIONS = ['RCU_QS_ACTIVE_ATTEMPTS=2, URCU_WAIT_ATTEMPTS=1 through the URCU_VERIF hooks so that spin and futex-sleep paths are inside the bound']
 LEVEL_TEXT = 'Bounded model checking of the real synchronize_rcu / read-side primitives of each flavor against ghost critical-section intervals, the litmus form and real reclamation.'
 LEVEL_NOTE = 'Trusted: clang-14 lowering, irseq translator, asm table, TSO + membarrier models, futex/mutex stubs, CBMC/MiniSat.'
